@@ -33,7 +33,7 @@ PROPS["C17"] = dict(
     replay={"*": "playback"},
 )
 
-CTOR_STUBS = ["system::get_rom_buffer -> buffer of the requested size, arbitrary contents (mmap contract)",
+CTOR_STUBS = ["system::get_rom_buffer -> zeroed buffer of the requested size (mmap contract); harnesses poke kani::any() bytes at the cells the reference selects",
               "mem::create_buffer -> zeroed buffer of the requested size without the push loop",
               "LCD::new -> same value without the 23 040-iteration push loop"]
 
@@ -51,4 +51,50 @@ PROPS["C11"] = dict(
     stubs=CTOR_STUBS + ["Stdout::write/flush -> recorder (serial port output is C18's subject)"],
     assumptions=["device state (timer, LCD, joypad) is the power-on state: no bus access path indexes memory with it"],
     replay={"*": "playback"},
+)
+
+PROPS["C12"] = dict(
+    level="model_checking",
+    groups=lambda tier, seed, ctx: [Group("c12", ["verif_c12"], jobs=6, harness_timeout=1500 if tier == "quick" else 5400, mem_gb=24)],
+    functions=["cart::{MBC1CartState,MBC3CartState,NullCartState}::{write_rom,get_rom_bank,get_ram_bank}", "cart::Header::{create_cart_state,get_rom_size_bytes,get_ram_size_bytes}",
+               "mem::{memory_write_byte,memory_read_byte,get_executable_memory_slice}", "mem::MemoryAreas::{with_rom_file,get_rom_bank}"],
+    bounds={"quick": "each controller family x all 256 ROM-size codes x all 256 RAM-size codes (real buffers; arbitrary bytes poked at the cells the reference selects, zero elsewhere) x every sequence of 3 guest writes "
+                     "(any address below 0x8000, any value; three relevant registers, so every register state and every order of reaching it) x every probe offset; "
+                     "read at 0x4000+off, 0x0000+off, 0xA000+off and instruction-fetch view compared with the byte the reference controller selects",
+            "thorough": "same with 5 writes"},
+    outside=["RAM-enable gating (not in the statement)", "MBC3 RTC register selection (values >= 4 at 0x4000-0x5fff leave the RAM window unconstrained)",
+             "MBC1 mode 1 with the upper bank bits set: both documented readings accepted at 0x4000-0x7fff", "addresses beyond the RAM actually present"],
+    stubs=CTOR_STUBS + ["Stdout::write/flush -> recorder"],
+    assumptions=[],
+    replay={"*": "playback"},
+)
+
+PROPS["C10"] = dict(
+    level="model_checking",
+    groups=lambda tier, seed, ctx: [Group("c10", ["verif_c10"], jobs=10, harness_timeout=1500, mem_gb=16)],
+    functions=["mem::{memory_read_byte,memory_write_byte,get_executable_memory_slice}", "mem::MemoryAreas::{with_rom_file,get_rom_bank,cart_ram_index}",
+               "devices::io::IO::{set_byte,get_byte}", "devices::{timer,joypad,serial,video}: register accessors reached from IO", "cart::*::{write_rom,get_rom_bank,get_ram_bank}"],
+    bounds={"quick": "one write (any of 65536 targets within the harness's target class, any value) followed by one read at any of 65536 addresses, compared with the read "
+                     "of the same address before the write; each controller family; all ROM/RAM size codes; arbitrary banking registers; I/O read-back masks for all 128 "
+                     "I/O offsets; fetch view over all of WRAM/HRAM (ROM fetch view is in C12). One step from an arbitrary banking state = inductive step over write histories",
+            "thorough": "same"},
+    outside=["device state other than power-on for the I/O read-back (timer/LCD phase): accessors do not depend on it", "serial port read side (excluded by the property)",
+             "cartridge RAM cells beyond the RAM present (open bus by design, C11/C12)", "Core::with_code_block images (4 KiB WRAM): not a loadable configuration"],
+    stubs=CTOR_STUBS + ["Stdout::write/flush -> recorder"],
+    assumptions=["memory background is zero; the frame rule compares against the measured pre-state so contents do not matter"],
+    replay={"*": "playback"},
+)
+
+PROPS["C16"] = dict(
+    level="model_checking",
+    groups=lambda tier, seed, ctx: [Group("c16", ["verif_c16"], jobs=8, harness_timeout=1500 if tier == "quick" else 7200, mem_gb=20)],
+    functions=["mem::MemoryAreas::run_clock_cycles", "mem::memory_write_byte (0xff46 arm)", "mem::DMAState"],
+    bounds={"quick": "arming from any in-progress state, all 256 pages; transaction contract from any (page, offset): batches of <= 8 bytes, and ANY batch size < 2^24 clocks "
+                     "when <= 8 bytes remain; two-batch split a+b <= 8; idle engine any batch size. The contract is additive in the byte count, so longer transfers follow by induction on batches",
+            "thorough": "plus batches of <= 18 bytes and a cross-check through the real bus ladder (page 0xC1, <= 2 bytes at any offset, arbitrary probe address)"},
+    outside=["CPU-side bus restrictions during DMA (not in the statement)", "what the copied bytes mean: reads/writes at those addresses are C10's subject (recording bus returns arbitrary values)"],
+    stubs=CTOR_STUBS + ["mem::memory_read_byte / memory_write_byte -> recording bus (arbitrary read values, event log) in the transaction harnesses",
+                        "IO::run_clock_cycles -> no-op (devices do not take part in the copy)"],
+    assumptions=["batch sizes are multiples of 4 clocks (every caller passes machine cycles x 4)"],
+    replay={"c16_txn_*": "solver-only", "c16_idle_*": "solver-only", "c16_batch_split": "solver-only", "*": "playback"},
 )
